@@ -43,6 +43,8 @@ CHECKS = {
          "Pairs of strings built through different storage histories are compared with every reader (==, cmp, hash, Display/Debug, foreign == in both orders, map lookups by &str, AsRef/Deref) against the same operations on the texts.", "DESIGN.md §6 C17"),
  "C18": ("fault_enumeration", "lsv", "callback-panic position enumeration over proptest-generated histories, String-after-same-panic as oracle, shadow-heap leak accounting",
          "Every callback-taking operation of each generated history is re-run with its callback panicking at invocation k for every k that fires; compared with String after the identical panic, plus isolation, refcount and leak invariants.", "DESIGN.md §6 C18"),
+ "C19": ("exploration", "lsv-features", "differential vs String/&str with the serde and arbitrary features on: recording Serializer, serde value deserializers, serde_json, exhaustive byte-class sequences, proptest texts and Unstructured seeds",
+         "Serialisation equals String's (one serialize_str), every str/borrowed str/String/bytes/borrowed bytes input deserialises to the text or is rejected exactly when it is not UTF-8, and LeanString::arbitrary / arbitrary_take_rest / size_hint equal <&str>'s on the same Unstructured over consecutive draws.", "DESIGN.md §6 C19"),
  "C20": ("exploration", "lsv", "niche/layout sweep, Option round trips in proptest histories, and a configuration-matrix differential: identical seeded histories digested in every feature set x optimisation level (and hooks-off builds)",
          "Sizes and alignment asserted; Some(s) matched as Some for every inline final byte and heap/static length; the same generated histories run with all C01-C03 oracles in the default build and produce identical value and allocator-event digests in {default, no-default-features, all features} x {optimised without debug assertions, unoptimised} and in hooks-off builds; all 8 feature combinations of the crate build.", "DESIGN.md §6 C20"),
 }
@@ -78,6 +80,8 @@ def main():
         "engines": [
             {"name": "lsv-loom", "path": "harness-loom/", "serves_properties": ["C04"],
              "kind_free_text": "proptest program generator + loom schedule exploration (one child process per program), hooks map buffer accesses to loom cells"},
+            {"name": "lsv-features", "path": "harness/lsv-features/", "serves_properties": ["C19"],
+             "kind_free_text": "differential engine built with lean_string's serde and arbitrary features"},
             {"name": "lsv", "path": "harness/", "serves_properties": sorted(p for p, c in CHECKS.items() if c[1] == "lsv"),
              "kind_free_text": "proptest-driven stateful model-based history explorer with shadow heap, fault/panic enumerators, grids and value-domain differential engines"},
         ],
